@@ -216,9 +216,24 @@ PROPS = {
              COMMON_ASSUME + ["each (flow, node) stream has one producer: the aggregation contract (per-node end times increase) must hold in every linearization",
                               "porcupine Unknown (60 s timeout) is inconclusive"],
              "porcupine linearizability check of recorded histories against a sequential model + conservation checker at quiescence; race detector; GOMAXPROCS sweep"),
+    "C19": P(True, (8, 16), 16, (1200, 5400), 2000, 1000, "exploration",
+             "one evaluation = one stream of 1..12 decoded IPFIX messages (templates, and data messages with 0..20 records; IPv4 and IPv6; PRNG "
+             "field values incl. 0, 2^64-1, long multi-byte UTF-8 strings; random header fields and exporter address) handed to a real "
+             "KafkaProducer (FlowType1 or FlowType2 convertor) through PublishIPFIXMessages, over a recording sarama.AsyncProducer (with and "
+             "without success acknowledgements; 1 stream in 40 through sarama's own mock producer). Recorded input must be exactly one "
+             "message per data record in record order, none for templates, on the configured topic; payload = 4-byte big-endian length + "
+             "exactly that many bytes; a field-level protowire parser must read exactly the expected (field number -> value) set derived "
+             "from flow.proto's numbering, the record's values and the message's export time / sequence number / observation domain / "
+             "exporter address (proto3: zero values absent, nothing duplicated, nothing extra); the consumer-side DecodeAndPrintMsg "
+             "(delimited mode, the schema cmd/consumer uses) must accept it and recover the same values. Non-trivial = a multi-record "
+             "message or a template between data messages; distinct by stream.",
+             COMMON_ASSUME + ["string values are valid UTF-8 (RFC 7012 string; proto3 refuses anything else)"],
+             "runtime monitor: recording AsyncProducer + independent protowire field parser + consumer-side decoder; race detector"),
 }
 
 LEVEL_TEXT = {
+    "C19": "Held on every stream explored, for both shipped proto schemas. The wire-level parser shares nothing with the generated "
+           "protobuf code, so a wrong field number or a value written to the wrong field is visible.",
     "C13": "Held on every recorded history (linearizable), every stress run (conservation) and every pool run explored. Interleavings are "
            "sampled; unique power-of-two deltas make each read and each export identify exactly the ingests it contains, so a lost or "
            "double-counted update cannot hide.",
